@@ -712,5 +712,85 @@ class FileSemantics(common.Suite):
         return f"mode={case['mode']},existing={bool(case['existing'])},wt={'wt' in pairs},sw={'sw' in pairs},tw={'tw' in pairs}"
 
 
+class LoggerFailedCall(common.Suite):
+    """a log line is ONE write: when a field's callable fails (calculator error, Ctrl-C during the energy evaluation, a
+    user field that raises) the call must leave no bytes behind, so that the lines completed before and after stay
+    whole (clause "header plus one complete line per call", also after the process dies between two file operations).
+    Real `Logger` on an instrumented file; the op range of every call must be in the protocol language of the model
+    (`fcall log`) or — for a failed call — empty."""
+
+    name = "logger-failed-call"
+
+    def cases(self, rng, tier):
+        n = 30 if tier == "quick" else 400
+        for _ in range(n):
+            nf = rng.randint(2, 5)
+            ncalls = rng.randint(2, 8)
+            fails = sorted({(rng.randrange(ncalls), rng.randrange(nf)) for _ in range(rng.choice([1, 1, 2, 3]))})
+            yield {"nfields": nf, "ncalls": ncalls, "fails": [list(f) for f in fails], "mode": rng.choice("aw"),
+                   "array_field": rng.random() < 0.3}
+
+    def real(self, case):
+        from quansino.io.logger import Logger
+
+        with tempfile.TemporaryDirectory(prefix="qverif-c16l-") as tmp:
+            tap = Tap(os.path.join(tmp, "log"), case["mode"])
+            lg = Logger(tap, interval=1, mode=case["mode"])
+            state = {"call": 0}
+            fails = {tuple(f) for f in case["fails"]}
+
+            def field(k):
+                def fn():
+                    if (state["call"], k) in fails:
+                        raise RuntimeError(f"field {k} failed")
+                    return [float(state["call"]), float(k)] if (case["array_field"] and k == 1) else float(state["call"] * 10 + k)
+                return fn
+
+            for k in range(case["nfields"]):
+                if case["array_field"] and k == 1:
+                    lg.add_field(("A1", "A2"), field(k), str_format="{:8.2f} {:8.2f}", is_array=True)
+                else:
+                    lg.add_field(f"F{k}", field(k), str_format="{:10.3f}")
+            lg.write_header()
+            nhead = len(tap.ops)
+            calls = []
+            for c in range(case["ncalls"]):
+                state["call"] = c
+                i0 = len(tap.ops)
+                try:
+                    lg()
+                    ok = True
+                except RuntimeError:
+                    ok = False
+                calls.append({"ok": ok, "ops": [optok(o) for o in tap.ops[i0:]], "visible_after": tap.visible[-1].hex()})
+            tap.flush()
+            final = tap._peek().decode()
+            tap.close()
+        return {"calls": calls, "final": final, "header_ops": nhead}
+
+    def model_lines(self, case):
+        return []
+
+    def oracle(self, case, obs):
+        out = []
+        lines = obs["final"].split("\n")
+        good = [c for c in obs["calls"] if c["ok"]]
+        nbad = len(obs["calls"]) - len(good)
+        for i, c in enumerate(obs["calls"]):
+            if not c["ok"] and c["ops"]:
+                out.append(("log:failed-call-left-bytes", f"call {i} failed but performed file operations {c['ops'][:4]}"))
+        if lines[-1] != "" or len(lines) != 1 + len(good) + 1:
+            out.append(("log:line-count-after-failed-call", f"{len(lines) - 2} data lines for {len(good)} completed calls "
+                                                            f"({nbad} failed): {lines[:4]}"))
+        width = {len(ln.split()) for ln in lines[1:-1]}
+        if len(width) > 1:
+            out.append(("log:torn-line", f"data lines have {sorted(width)} columns"))
+        return out[:3]
+
+    def classify(self, case, obs):
+        first = min(f[1] for f in case["fails"])
+        return f"mode={case['mode']},first-failing-field={'first' if first == 0 else 'later'},array={case['array_field']}"
+
+
 def suites(tier):
-    return [FileCrash(), FileSemantics()]
+    return [FileCrash(), FileSemantics(), LoggerFailedCall()]
